@@ -60,6 +60,7 @@ struct Tls {
     /// trusts the test CA, checks the chain but not the name (decision rows with an IPv6 literal: ldap3 hands the
     /// bracketed form "[::1]" to the TLS library as the name to verify, which no certificate can match)
     custom_anyname: native_tls::TlsConnector,
+    custom_nosni: native_tls::TlsConnector, // trusts the test CA, checks the name, sends no server_name extension
     /// blocking acceptor with the CA-signed localhost leaf (for peers that run on plain threads)
     acceptors_std: native_tls::TlsAcceptor,
 }
@@ -120,12 +121,17 @@ fn make_tls(dir: &Path) -> Tls {
         .add_root_certificate(ca.clone())
         .build()
         .unwrap_or_else(|e| infra(&format!("connector: {}", e)));
+    let custom_nosni = native_tls::TlsConnector::builder()
+        .add_root_certificate(ca.clone())
+        .use_sni(false)
+        .build()
+        .unwrap_or_else(|e| infra(&format!("connector: {}", e)));
     let custom_anyname = native_tls::TlsConnector::builder()
         .add_root_certificate(ca)
         .danger_accept_invalid_hostnames(true)
         .build()
         .unwrap_or_else(|e| infra(&format!("connector: {}", e)));
-    Tls { acceptors, custom, custom_anyname, acceptors_std: acceptors_std.unwrap() }
+    Tls { acceptors, custom, custom_anyname, custom_nosni, acceptors_std: acceptors_std.unwrap() }
 }
 
 // ---------------------------------------------------------------------------------------------- scripted server
@@ -734,7 +740,9 @@ async fn run_script_once(cfg: Value, sc: Value, verdict: Vec<String>, tls: Tls, 
     }
     st = st.set_starttls(mode == "starttls").set_no_tls_verify(!verify);
     if s(&cfg, "connector") == "custom" {
-        st = st.set_connector(tls.custom.clone());
+        // a URL without a host: the name the certificate is checked against is the library's own substitute ("localhost"),
+        // and a connector that sends no SNI is the one whose handshake does not depend on that name being non-empty
+        st = st.set_connector(if s(&cfg, "host") == "absent" { tls.custom_nosni.clone() } else { tls.custom.clone() });
     }
     if short {
         st = st.set_conn_timeout(Duration::from_millis(short_ms));
@@ -757,7 +765,9 @@ async fn run_script_once(cfg: Value, sc: Value, verdict: Vec<String>, tls: Tls, 
         }));
         st = st.set_std_stream(StdStream::Unix(a));
     }
-    let url = format!("{}://{}:{}", if mode == "ldaps" { "ldaps" } else { "ldap" }, if s(&cfg, "host") == "ip" { "127.0.0.1" } else { "localhost" }, l.port);
+    let scheme = if mode == "ldaps" { "ldaps" } else { "ldap" };
+    // no host in the URL (and hence no port: "ldap://:389" is not a URL): only meaningful over a pre-connected stream
+    let url = if s(&cfg, "host") == "absent" { format!("{}:///", scheme) } else { format!("{}://{}:{}", scheme, if s(&cfg, "host") == "ip" { "127.0.0.1" } else { "localhost" }, l.port) };
     let bound = if verdict.iter().any(|v| v == "pending") { pending_ms } else { HANG_MS.max(short_ms + LATE_MS + 500) };
     let o = call_async(st, url.clone(), bound, Some(log.clone())).await;
     let late = short && o.ms > short_ms + LATE_MS;
